@@ -172,6 +172,8 @@ def outcome_scripts(delays, max_len=3, kinds=('ok', 'temp', 'perm', 'err')):
         st.builds(lambda d: {'o': 'temp', 'delay': d}, delays),
         st.just({'o': 'perm'}),
         st.just({'o': 'err'}),
+        st.builds(lambda d: {'o': 'temp', 'delay': d, 'sub': True}, delays),      # an operator's own subclass of TemporaryError
+        st.just({'o': 'perm', 'sub': True}),
     ).filter(lambda s: s['o'] in kinds)
     return st.lists(step, max_size=max_len)
 
